@@ -21,6 +21,14 @@ CHECKS = [
      'technique': 'deterministic simulation: seeded operation histories over a pool of aliasing map/array values, persistent reference model, re-observation of every pool member after every operation',
      'text': 'Seeded histories of map:*/array:* functions, constructors and lookups over a pool of values that alias each other (results re-enter the pool as the same objects and are passed back through variables). After every operation the result, observed through the public functions, is compared with a persistent dict/list model and every pool member is re-observed for immutability; failing operations are part of the histories.',
      'note': 'Trusts the reference model (same-key relation by exact numeric value / code points / type+value) and compares map keys by same-key class rather than representation.'},
+    {'id': 'C16', 'level': 'exploration', 'design_ref': 'DESIGN.md section 2, C16',
+     'technique': 'deterministic simulation: seeded call histories (order, multiplicity, nesting, cross-evaluation, Python-level calls) on function items, judged by a reference interpreter with immutable closures',
+     'text': 'Typed random programs over a mini-language create function items inside let/for scopes, store them in sequences/arrays/maps, apply them partially and pass them to the higher-order functions; Selectors producing function items are evaluated repeatedly under different bindings and the items are called later from Python. Every value is compared with a reference interpreter in which closures are immutable, so sharing of state between items, calls or evaluations shows as a mismatch.',
+     'note': 'Trusts the reference interpreter (integers, booleans, flat sequences, the listed HOFs); programs are well-typed by construction.'},
+    {'id': 'C05', 'level': 'exploration', 'design_ref': 'DESIGN.md section 2, C05',
+     'technique': 'deterministic simulation: seeded evaluation histories over shared Selectors/tokens/documents/variable values with interleaved and abandoned generators, failing evaluations, clock and timezone changes; clean-room differential forked from the current process + input snapshots; scoping programs vs reference interpreter',
+     'text': 'Histories of select / iter_select / token.evaluate over shared Selectors, tokens, documents (ElementTree, lxml, prebuilt node trees) and caller-owned mutable values. After every operation the result must equal a clean-room evaluation (fresh parse, fresh context, fresh copies of the inputs, forked from the current process), select must equal iter_select, and structural snapshots of all documents, variable values and namespace maps must be unchanged. A second arm checks lexical scoping of for/let/some/every/inline-function parameters against a reference interpreter.',
+     'note': 'Trusts the canonical result form (nodes by document index / path) and the structural snapshots; contexts are never reused because the property does not promise that.'},
 ]
 
 NOT_APPLICABLE = [
